@@ -199,6 +199,12 @@ func (m *mux) Open(id ConnID) (net.Conn, error) {
 			doneC: make(chan error, 1),
 			readC: make(chan []byte, m.qlen),
 		}
+		select {
+		case <-m.doneC:
+			// the Mux is already closed: nobody would ever close or wake up this connection
+			c.close()
+		default:
+		}
 		m.conns[id] = c
 	}
 
